@@ -1,24 +1,112 @@
-"""Shape guard shared by the rules that read the HCM case dispatch of FKMNonlinearDetector._hcm_process_sample.
+"""The HCM case dispatch of FKMNonlinearDetector._hcm_process_sample, for the rules that depend on it (R-C02-1/2/3 for the
+FKM-nonlinear detector, R-C04-5, R-C05-1).
 
-Those rules (R-C02-1/2/3 for the FKM-nonlinear detector, R-C04-5, R-C05-1) recognise the dispatch in the form the
-repository uses: one `while True:` loop whose body tests `iz == ir`, `iz < ir` and otherwise handles `iz > ir`, leaving the
-loop with `break` and re-entering it with `continue`.  A restructured dispatch (a `while iz > ir:` loop followed by an
-if/elif/else, early returns, ...) can be equivalent; the rules do not claim to decide that and report *undecided* (exit 2)
-instead of a verdict."""
+Those rules read the dispatch in the form the repository uses: one `while True:` loop whose body tests `iz == ir`, `iz < ir`
+and otherwise handles `iz > ir`, leaving the loop with `break` and re-entering it with `continue`.  When the control flow has
+another shape (a `while iz > ir:` loop followed by an if/elif/else, early returns, extracted helpers ...) the same clauses are
+decided by the path-by-path abstract execution of sa/hcmmodel.py against the textbook case table instead."""
 import ast
 
 from ..frontend import AnalysisError
 from ..astutil import const_value
 
+D = "pylife.stress.rainflow.fkm_nonlinear:FKMNonlinearDetector."
+ROLES = {"cur": "current_load_representative", "mx": "load_max_seen", "stack": "_residuals"}
+NAMES = {"c_i": "_handle_case_c_i", "c_ii": "_handle_case_c_ii", "primary": "_proceed_on_primary_branch", "b": "_handle_case_b",
+         "a_i": "_handle_case_a_i", "a_ii": "_handle_case_a_ii"}
+
+
+class Restructured(AnalysisError):
+    pass
+
 
 def require_recognised_dispatch(ps):
     loops = [s for s in ps.node.body if isinstance(s, ast.While)]
     if len(loops) != 1 or const_value(loops[0].test) is not True:
-        raise AnalysisError("_hcm_process_sample: the HCM case dispatch is not in the recognised `while True:` form (restructured "
-                            "control flow); the rules reading it are undecided on this tree")
+        raise Restructured("_hcm_process_sample: the HCM case dispatch is not in the `while True:` form")
     tests = [s for s in loops[0].body if isinstance(s, ast.If) and
              {"iz", "ir"} <= {n.id for n in ast.walk(s.test) if isinstance(n, ast.Name)}]
     if len(tests) < 2:
-        raise AnalysisError("_hcm_process_sample: the top-level tests on iz / ir of the HCM dispatch were not found; "
-                            "the rules reading it are undecided on this tree")
+        raise Restructured("_hcm_process_sample: the top-level tests on iz / ir of the HCM dispatch were not found")
     return loops[0]
+
+
+_EXAMPLE = '''
+class D:
+    def _hcm_process_sample(self, *, current_point, recording_lists, largest_point, iz, ir, load_max_seen, current_load_representative):
+        is_new_max = np.abs(current_load_representative) > load_max_seen + 1e-12
+        while iz > ir:
+            p0 = self._residuals[-2]
+            p1 = self._residuals[-1]
+            if np.abs(current_load_representative - p1.load_representative) < np.abs(p1.load_representative - p0.load_representative) - 1e-12:
+                current_point = self._handle_case_c_i(current_point=current_point, previous_point_1=p1)
+                return current_point, iz, ir, recording_lists
+            recording_lists = self._handle_case_c_ii(recording_lists=recording_lists, previous_point_0=p0, previous_point_1=p1)
+            iz -= 2
+            if not (np.abs(p0.load_representative) < load_max_seen - 1e-12 and np.abs(p1.load_representative) < load_max_seen - 1e-12):
+                current_point = self._proceed_on_primary_branch(current_point)
+                self._strain_values.append(current_point.strain.values[0])
+                if self._run_index == 1:
+                    self._n_strain_values_first_run += 1
+                return current_point, iz, ir, recording_lists
+        if iz < ir:
+            current_point = self._handle_case_b(current_point)
+        elif is_new_max:
+            current_point, recording_lists = self._handle_case_a_i(current_point=current_point, previous_point=self._residuals[-1],
+                                                                   recording_lists=recording_lists)
+            ir += 1
+        else:
+            current_point = self._handle_case_a_ii(current_point=current_point, previous_point=self._residuals[-1])
+        return current_point, iz, ir, recording_lists
+'''
+
+
+_SELFTEST_DONE = []
+
+
+def _selftest():
+    """the model accepts a correct dispatch in a foreign shape and rejects four seeded errors in it"""
+    if _SELFTEST_DONE:
+        return
+    _SELFTEST_DONE.append(True)
+    from ..hcmmodel import check_dispatch
+    from .c18 import _mini_program
+    ok = _mini_program(_EXAMPLE)
+    n, bad, _ = check_dispatch(ok.functions["ex:D._hcm_process_sample"], ROLES, NAMES)
+    if bad is not None:
+        raise AnalysisError("HCM dispatch model rejects its own correct example: %r" % (bad,))
+    for a, b in (("if iz < ir:", "if iz <= ir:"), ("iz -= 2", "iz -= 1"), ("previous_point_0=p0, previous_point_1=p1", "previous_point_0=p1, previous_point_1=p0"),
+                 ("and np.abs(p1.load_representative) < load_max_seen - 1e-12", "")):
+        src = _EXAMPLE.replace(a, b, 1)
+        assert src != _EXAMPLE
+        p2 = _mini_program(src)
+        try:
+            _, bad, _ = check_dispatch(p2.functions["ex:D._hcm_process_sample"], ROLES, NAMES)
+        except AnalysisError:
+            bad = True
+        if bad is None:
+            raise AnalysisError("HCM dispatch model accepts the seeded error %r -> %r of its example" % (a, b))
+
+
+def dispatch_by_model(ctx, prog, rule, what):
+    """decide the dispatch clauses under `rule` by abstract execution; returns the data predicates found (key -> text)"""
+    from ..hcmmodel import check_dispatch
+    from ..inline import inlined
+    _selftest()
+    ps = prog.func(D + "_hcm_process_sample")
+    missing = [n for n in NAMES.values() if prog.lookup_method(ps.cls, n) is None]
+    if missing or not {ROLES["cur"], ROLES["mx"], "iz", "ir"} <= set(ps.params):
+        raise AnalysisError("_hcm_process_sample: handlers %s / parameters of the dispatch not found" % missing)
+    keep = tuple(n for n in ps.cls.methods if n.startswith(("_handle_case", "_proceed_on")))
+    fi = inlined(prog, ps, skip=keep)
+    n, bad, preds = check_dispatch(fi, ROLES, NAMES)
+    if bad is None:
+        ctx.holds(ps, ps.node, "%s: the dispatch performs the HCM case analysis on all %d abstract scenarios (iz - ir in -1..4, "
+                  "new maximum, smaller extent / inner hysteresis per closing attempt, pass one)" % (what, n), rule=rule)
+    else:
+        d0, sc, got, want = bad
+        ctx.violated(ps, ps.node, "%s: for iz - ir = %d, new maximum %s, extent smaller %s, hysteresis ends inside the seen range %s, "
+                     "pass one %s the dispatch does %s (counters %+d/%+d); the HCM case analysis requires %s (counters %+d/%+d)" %
+                     (what, d0, sc["NEWMAX"], sc["SMALLER"], sc["INNER"], sc["RUN1"], [e[0] for e in got[0]] or "nothing", got[1], got[2],
+                      [e[0] for e in want[0]] or "nothing", want[1], want[2]), rule=rule, text="dispatch " + what)
+    return preds
